@@ -1,4 +1,5 @@
 import MpfVerif.Lemmas.DriverTimers
+import MpfVerif.Gen.HwDriverCallSites
 /-!
 # C08 — coils are never driven beyond their configured safety limits
 
@@ -309,5 +310,20 @@ example :
                     fun k => if k = "max_pulse" then .int 255 else .int 10⟩
     (runOps c {} [.pulse (.int 300) .none, .advance 125, .pulse (.int 300) .none, .advance 400]).map (fun tc => tc.1)
       = [0, 125, 425] := by decide
+
+/-- **entry-point closure** (regenerated from the whole source tree on every run): the only places under `mpf/`
+(outside the platform packages) that actuate a platform driver directly are the three `Driver` paths modelled above
+(`_pulse_now`, `_enable_now`, `timed_enable` — every coil device, coil player, ejector, flipper `sw_flip` and dual-wound
+coil goes through them), the software-EOS repulse manager (which re-issues the verified settings of an installed rule,
+C10) and `DigitalOutput` (not a coil: fixed power 1.0, no coil limits configured).  A new direct call site anywhere
+else breaks this theorem. -/
+theorem all_call_sites_known :
+    ∀ site ∈ MpfVerif.Gen.HwDriverCallSites.table, site ∈
+      [("mpf/devices/driver.py", "_enable_now", "enable"), ("mpf/devices/driver.py", "_pulse_now", "enable"),
+       ("mpf/devices/driver.py", "_pulse_now", "pulse"), ("mpf/devices/driver.py", "timed_enable", "timed_enable"),
+       ("mpf/core/platform_controller.py", "_repulse_on_eos_open", "enable"),
+       ("mpf/core/platform_controller.py", "_repulse_on_eos_open", "pulse"),
+       ("mpf/devices/digital_output.py", "enable", "enable"), ("mpf/devices/digital_output.py", "pulse", "pulse")] := by
+  decide
 
 end MpfVerif.C08
